@@ -1,6 +1,7 @@
 package main
 
 import (
+	"path/filepath"
 	"flag"
 	"fmt"
 	"os"
@@ -79,7 +80,21 @@ func cmdVerify(args []string) {
 	}
 	pre := ""
 	{
-		for _, f := range append([]string{"/verif/spec/common.smt2"}, strings.Split(*prelude, ",")...) {
+		allPre := []string{"/verif/spec/common.smt2"}
+		if ms, _ := filepath.Glob("/verif/spec/*.smt2"); ms != nil {
+			sort.Strings(ms)
+			for _, m := range ms {
+				if strings.HasSuffix(m, ".lemmas.smt2") || m == "/verif/spec/common.smt2" {
+					continue
+				}
+				allPre = append(allPre, m)
+			}
+		}
+		_ = prelude
+		for _, f := range allPre {
+			if f == "" {
+				continue
+			}
 			b, err := os.ReadFile(f)
 			if err != nil {
 				fmt.Fprintln(os.Stderr, err)
